@@ -371,6 +371,32 @@ def old_version(t):
     return out
 
 
+LOCAL_OLD = [None, "longer", "shorter", "equal", "empty", "mixed"]
+
+
+def local_old_version(t, kind, counter=None):
+    """an older LOCAL copy of the tree about to be downloaded: every file replaced by contents that are strictly
+    longer / shorter / of equal length / empty compared with the remote contents ("mixed": rotating per file, plus
+    one extra entry per directory that the download must leave alone)"""
+    counter = counter if counter is not None else [0]
+    if isinstance(t, (bytes, bytearray)):
+        k = kind
+        if kind == "mixed":
+            k = ["longer", "shorter", "equal", "empty"][counter[0] % 4]
+            counter[0] += 1
+        if k == "longer":
+            return bytes(t) + b"~OLD-TAIL~"
+        if k == "shorter":
+            return b"o" * (len(t) // 2)
+        if k == "equal":
+            return b"o" * len(t)
+        return b""
+    out = {n: local_old_version(c, kind, counter) for n, c in t.items()}
+    if kind == "mixed":
+        out["lzz"] = b"LZ"
+    return out
+
+
 def make_cases(ctx):
     thorough = ctx.tier == "thorough"
     root_shapes = [s for s in shapes(3, thorough) if not isinstance(s, str)]
@@ -404,6 +430,7 @@ def make_cases(ctx):
                         lcwd=["/", "/lw"][(k // 4) % 2],
                         ldst=DESTS[(k // 2) % 4],
                         lwi=(k // 8) % 2 == 1,
+                        lold=LOCAL_OLD[k % 6],
                         pick=k,
                     )
                 )
@@ -528,6 +555,20 @@ def run_case(case, src, remote, tmp, wall_timeout=60):
         # ---- download (a file written "into" the empty destination has no name: use write_into=False there)
         dl_is_file = isinstance(sub(t1, resolve(cwdp, dl)), bytes)
         obs["lwi"] = case["lwi"] and not (dl_is_file and case["ldst"] == "")
+        # ---- an older copy already at the LOCAL destination (longer / shorter / equal / empty files): the property
+        # says the local tree afterwards is the remote subtree whatever was there
+        if case.get("lold"):
+            dlp0 = pathlib.PurePosixPath(dl)
+            ltarget = resolve(lcwdp, str(pathlib.PurePosixPath(case["ldst"]) / ("" if obs["lwi"] else dlp0.name)))
+            wanted = sub(t1, resolve(cwdp, dl))
+            if ltarget and wanted is not None and graft_compatible(local0, ltarget, wanted):
+                pre = graft_oracle(local0, ltarget, local_old_version(wanted, case["lold"]))
+                if case["cdisk"]:
+                    disk_write(croot, pre)
+                else:
+                    client.path_io.fs = mem_state(pre)
+                obs["local0"] = local_now()
+                obs["lold_applied"] = True
         try:
             await client.download(dl, lpath(case["ldst"]), write_into=obs["lwi"], block_size=case["bs"])
             obs["download_exc"] = None
@@ -636,6 +677,7 @@ def check_cases(ctx, cases, tmp, use_model=True):
         ctx.count("server=" + ("disk" if case["sdisk"] else "mem") + ("+LIST" if case["fallback"] else "+MLSD"))
         ctx.count("client=" + ("disk" if case["cdisk"] else "mem"))
         ctx.count(f"dst={case['dst']!r} write_into={case['wi']} cwd={case['cwd']}")
+        ctx.count("local destination before download=" + (case.get("lold") if obs.get("lold_applied") else "fresh"))
         ctx.count("source=" + ("file" if isinstance(src, bytes) else f"dir(size {min(size(src), 6)}{'+' if size(src) > 6 else ''})"))
         ctx.sample({"source": show(src), "dst": case["dst"], "write_into": case["wi"], "cwd": case["cwd"],
                     "remote_after_upload": show(obs["t1"])})
@@ -701,7 +743,8 @@ def check_cases(ctx, cases, tmp, use_model=True):
             ctx.count("download-conflict(no oracle)")
         elif obs["download_exc"] is not None or canon(obs["local1"]) != canon(lwant):
             ctx.violation("download did not place the tree at the documented destination",
-                          replay_payload(case, "c09-download-mismatch", source=dl, tree=show(t1), expected=show(lwant),
+                          replay_payload(case, "c09-download-mismatch", source=dl, tree=show(t1), local_before=show(obs["local0"]),
+                                         local_destination=case["ldst"], expected=show(lwant),
                                          got=show(obs["local1"]) if obs["download_exc"] is None else obs["download_exc"]))
 
         # ---- remove
@@ -1029,7 +1072,9 @@ def correspondence(ctx):
         "destination {'', x, x/y, /x/y} x write_into x cwd {/, /w}, depth-3 shapes under 3 of them in rotation (all 16 in "
         "thorough); block size {1,4,8192}, MLSD vs LIST-fallback server, memory/disk backend on each side, fresh vs "
         "pre-existing older copy at the destination, relative vs absolute source, local cwd and local destination rotate with "
-        "the case index. Each session also lists recursively, downloads and removes a path chosen from the real remote tree. "
+        "the case index. Each session also lists recursively, downloads and removes a path chosen from the real remote tree; "
+        "before the download the LOCAL destination is fresh or already holds an older copy of the same shape whose files are "
+        "strictly longer / shorter / of equal length / empty / mixed (plus a bystander entry) compared with the remote ones. "
         "A case is non-trivial when its (shape, naming, configuration) is distinct. "
         "SESSIONS: sequences of operations on ONE client (cd w | cd / | upload foo->x | upload foo->x/y write_into | "
         "mkdir x/y | remove x | upload foo->''): six named scenarios (same relative destination from two directories, "
@@ -1131,6 +1176,7 @@ def replay(ctx, data):
     case = {k: r[k] for k in ("scheme", "dst", "wi", "cwd", "bs", "fallback", "sdisk", "cdisk", "merge", "src_abs", "lcwd",
                               "ldst", "lwi", "pick")}
     case["dots"] = r.get("dots", False)
+    case["lold"] = r.get("lold")
 
     def tup(s):
         return s if isinstance(s, str) else tuple(tup(x) for x in s)
